@@ -164,7 +164,8 @@ def call(root, ids, opts, entry):
     filecmp.clear_cache()
     S, D = signac.Project(os.path.join(root, "src")), signac.Project(os.path.join(root, "dst"))
     kw = dict(strategy=make_strategy(opts["strategy"]), doc_sync=make_docsync(opts["doc_sync"]),
-              recursive=opts["recursive"], exclude=EXCLUDE if opts["exclude"] else None)
+              recursive=opts["recursive"],
+              exclude=None if not opts["exclude"] else ([EXCLUDE] if opts["exclude"] == "list" else EXCLUDE))
     for k in ("deep", "dry_run"):
         if opts.get(k):
             kw[k] = True
@@ -556,6 +557,13 @@ def base_cases(tier):
                 for order in ("sorted", "reversed"):
                     yield ((a, b), "none", base_opts(strategy=st, doc_sync=ds, recursive=True, selection=sel, order=order),
                            "sync_projects")
+    # list-valued exclude patterns: sync_jobs() appends to the list it is given, later clones must not be affected
+    for (a, b) in pairs:
+        for order in ("sorted", "reversed"):
+            yield ((a, b), "none", base_opts(strategy="always", doc_sync="update", recursive=True, exclude="list", order=order),
+                   "sync_projects")
+    for name in SHAPE_NAMES:
+        yield ((name,), "none", base_opts(strategy="always", doc_sync="update", recursive=True, exclude="list"), "Project.sync")
     if tier != "quick":
         for tri in itertools.permutations(MULTI[:6], 3):
             for st, ds in (("always", "update"), ("never", "bykey-regex")):
